@@ -254,10 +254,22 @@ fn check_address_space() {
 }
 
 fn stats_json(st: &Stats) -> serde_json::Value {
+    let mut cells = st.cells.clone();
+    let (sn, cn) = (["4K", "2M", "1G"], ["NoPath", "Free", "MappedExact", "InsideHuge", "HoldsTable"]);
+    let codes = ["Ok", "PageAlreadyMapped", "ParentEntryHugePage", "FrameAllocationFailed", "PageNotMapped", "InvalidFrameAddress", "panic", "Mapped"];
+    for a in 0..3 {
+        for b in 0..5 {
+            for c in 0..8 {
+                if st.tp_cells[a][b][c] > 0 {
+                    cells.insert(format!("translate_page(probe)/{}/{}/{}", sn[a], cn[b], codes[c]), st.tp_cells[a][b][c]);
+                }
+            }
+        }
+    }
     json!({
         "runs": st.runs, "steps": st.steps, "calls": st.calls, "probe_translations": st.probe_translations,
         "distinct": st.distinct.len(),
-        "probes": st.probes, "cells": st.cells,
+        "probes": st.probes, "cells": cells,
         "fault_kinds": {"alloc_fail_1st": st.fired[0], "alloc_fail_2nd": st.fired[1], "alloc_fail_3rd": st.fired[2], "alloc_fail_all": st.fired[3], "alloc_exhausted": st.fired[4]},
         "recycled_frames": st.recycled, "views": st.views, "filtered_misuse_steps": st.filtered,
         "mmu_faults_resolved": st.mmu_faults, "trapped_instructions": st.trapped, "deallocations": st.deallocs,
@@ -391,7 +403,7 @@ fn main() {
             let res = json!({
                 "property": prop, "base_seed": base, "start": start, "stride": stride, "runs_done": done,
                 "wall_s": t0.elapsed().as_secs_f64(), "stats": stats_json(&st), "violations": viols, "samples": samples,
-                "distinct_keys": st.distinct.iter().map(|k| format!("{:?}", k)).collect::<Vec<_>>(),
+                "distinct_keys": st.distinct.iter().cloned().collect::<Vec<u64>>(),
             });
             std::fs::write(&out, serde_json::to_string(&res).unwrap()).unwrap();
             std::process::exit(if viols.is_empty() { 0 } else { 1 });
